@@ -233,7 +233,7 @@ func (f *fuzzEnv) hostileString(field string) string {
 		f.class("pubkey:" + short(s, 8))
 		return s
 	case strings.Contains(lf, "referenceid"):
-		ids := []string{"", "short", strings.Repeat("a", 64), strings.Repeat("b", 65), strings.Repeat("Z", 64)}
+		ids := []string{"", "short", strings.Repeat("a", 64), strings.Repeat("b", 65), strings.Repeat("Z", 64), strings.Repeat("b", 64), strings.Repeat("a", 64), strings.Repeat("Z", 64)}
 		s := ids[f.r.Intn(len(ids))]
 		f.class(fmt.Sprintf("refid:%d", len(s)))
 		return s
@@ -434,6 +434,14 @@ func runC20(c *fw.Case) {
 			}
 		}
 	}
+	// commit what has been built so far (ABCI queries read committed state) and open the next block
+	if _, _, err := e.n.EndBlock(); err == nil {
+		now = now.Add(6 * time.Second)
+		if _, err := e.n.BeginBlock(now); err != nil {
+			c.Inconclusive("beginblock: %v", err)
+			return
+		}
+	}
 	// state variants
 	variants := []string{"populated", "vesting-type-removed", "trace-of-non-vesting-account", "odd-vesting-denom", "signature-data"}
 	f.variant = variants[c.Index%len(variants)]
@@ -459,6 +467,20 @@ func runC20(c *fw.Case) {
 			}
 		}
 	case "signature-data":
+		// links published for the reference ids the fuzzer uses, signatures stored for some
+		// (address, reference id) pairs only: every combination of present / absent objects
+		for _, refID := range []string{strings.Repeat("a", 64), strings.Repeat("Z", 64)} {
+			if lk, err := e.n.App.CfesignatureKeeper.CreateReferencePayloadLink(sdk.WrapSDKContext(e.n.Ctx()), &sigtypes.QueryCreateReferencePayloadLinkRequest{ReferenceId: refID, PayloadHash: "h"}); err == nil {
+				execSigOn(e.n, &sigtypes.MsgPublishReferencePayloadLink{Creator: e.owners[0].Bech(), Key: lk.ReferenceKey, Value: lk.ReferenceValue})
+			}
+			if sk, err := e.n.App.CfesignatureKeeper.CreateStorageKey(sdk.WrapSDKContext(e.n.Ctx()), &sigtypes.QueryCreateStorageKeyRequest{TargetAccAddress: f.addrs[0], ReferenceId: refID}); err == nil {
+				execSigOn(e.n, &sigtypes.MsgStoreSignature{Creator: e.owners[0].Bech(), StorageKey: sk.StorageKey, SignatureJSON: `{"signature":"AA==","algorithm":"ecdsaWithSha256","certificate":"x"}`})
+			}
+		}
+		if sk, err := e.n.App.CfesignatureKeeper.CreateStorageKey(sdk.WrapSDKContext(e.n.Ctx()), &sigtypes.QueryCreateStorageKeyRequest{TargetAccAddress: f.addrs[1], ReferenceId: strings.Repeat("b", 64)}); err == nil {
+			// signature without a published link
+			execSigOn(e.n, &sigtypes.MsgStoreSignature{Creator: e.owners[0].Bech(), StorageKey: sk.StorageKey, SignatureJSON: `{"signature":"AA==","algorithm":"ecdsaWithSha256","certificate":"x"}`})
+		}
 		for i := 0; i < 3; i++ {
 			execSigOn(e.n, &sigtypes.MsgPublishReferencePayloadLink{Creator: e.owners[0].Bech(), Key: fmt.Sprintf("k%d", i), Value: "v"})
 			execSigOn(e.n, &sigtypes.MsgStoreSignature{Creator: e.owners[0].Bech(), StorageKey: fmt.Sprintf("s%d", i), SignatureJSON: `{"signature":"AA==","algorithm":"ecdsaWithSha256","certificate":"x"}`})
@@ -640,6 +662,20 @@ func c20RunQuery(c *fw.Case, e *vestEnv, q c20Query, req reflect.Value) bool {
 		return true
 	}
 	c.Count("queries", 1)
+	// the same request through the ABCI Query entry point (gRPC router on the committed
+	// state); baseapp converts a panic there into an ErrPanic response
+	if !req.IsNil() && e.n.Height > 0 {
+		if bz, err := proto.Marshal(req.Interface().(proto.Message)); err == nil {
+			var resp abci.ResponseQuery
+			p := safeCall("app.Query", func() { resp = e.n.App.Query(abci.RequestQuery{Path: q.path, Data: bz}) })
+			if p != nil {
+				c.ViolateD("C20/abci-query-panic/"+q.name+"/"+panicKey(p.Stack), map[string]string{"request": fmt.Sprintf("%+v", req.Interface()), "panic": short(p.Value, 300), "stack": short(p.Stack, 3000)}, "ABCI query %s panicked: %s", q.path, short(p.Value, 200))
+			} else if resp.Codespace == "undefined" && resp.Code == 111222 {
+				c.ViolateD("C20/abci-query-errpanic/"+q.name, map[string]string{"request": fmt.Sprintf("%+v", req.Interface()), "log": short(resp.Log, 1500)}, "ABCI query %s answered ErrPanic: %s", q.path, short(resp.Log, 200))
+			}
+			c.Count("abci_queries", 1)
+		}
+	}
 	return !req.IsNil()
 }
 
